@@ -149,7 +149,11 @@ class ReusedEnv:
             name = self.r.choice(NAMES)
             self.parser.stop_at_first_error = self.r.random() < 0.4
             try:
-                self.parser.parse(POOL[name], self.matcher)
+                src = POOL[name]
+                if self.r.random() < 0.3:
+                    from gherkin.token_scanner import TokenScanner
+                    src = TokenScanner(src)            # the other documented input form
+                self.parser.parse(src, self.matcher)
             except self.err:
                 pass
             except Exception:
@@ -161,7 +165,10 @@ class ReusedEnv:
         import copy
         self.perturb(M)
         M.count("parses_on_reused_objects")
-        o = observe.parse_observed(text, stop=stop, parser=self.parser, matcher=self.matcher, idgen=self.idgen)
+        as_scanner = self.r.random() < 0.3
+        if as_scanner:
+            M.count("parses_on_reused_objects.from_scanner_object")
+        o = observe.parse_observed(text, stop=stop, parser=self.parser, matcher=self.matcher, idgen=self.idgen, as_scanner=as_scanner)
         # a document that was returned earlier must not be changed by later parses on the same objects
         prev = getattr(self, "_held", None)
         if prev is not None:
